@@ -19,4 +19,5 @@ struct MTab
     int n;
     unsigned width;
     int is_model;
+    void (*set_place)(int); // coefficient arrays of the unaligned kernels start at word offset (p & 7) from a 64-byte boundary
 };
